@@ -170,13 +170,34 @@ func c12Shapes() []*spec.Spec {
 		}
 		out = append(out, s)
 	}
+	// the workflow's sink draining file items and parameter values at the same time: a parameter source and a
+	// parameter combinator nobody consumes beside file branches that end in the sink
+	{
+		s := mk("sink_files_and_params", 8)
+		s.Procs = append(s.Procs, cmd("F1", in, o1, 1), cmd("F2", in, o1, 1),
+			&spec.Proc{Name: "PSA", Kind: spec.KParamSource, Values: []string{"a1", "a2", "a3", "a4", "a5", "a6", "a7", "a8"}},
+			&spec.Proc{Name: "PSB", Kind: spec.KParamSource, Values: []string{"b1", "b2", "b3"}}, &spec.Proc{Name: "PSC", Kind: spec.KParamSource, Values: []string{"c1", "c2", "c3"}},
+			&spec.Proc{Name: "PC", Kind: spec.KParamComb, Ports: []string{"u", "v"}})
+		s.Conns = append(s.Conns, &spec.Conn{From: "src.out", To: "F1.in"}, &spec.Conn{From: "src.out", To: "F2.in"},
+			&spec.Conn{From: "PSB.out", To: "PC.u", Param: true}, &spec.Conn{From: "PSC.out", To: "PC.v", Param: true})
+		out = append(out, s)
+	}
+	// two joined in-ports, each fed by its own StreamToSubStream
+	{
+		s := mk("two_joins", 4)
+		s.Procs = append(s.Procs, cmd("UA", in, o1, 1), cmd("UB", in, o1, 1), &spec.Proc{Name: "SSA", Kind: spec.KSubStream}, &spec.Proc{Name: "SSB", Kind: spec.KSubStream},
+			&spec.Proc{Name: "JN2", Kind: spec.KCmd, Cmd: "echo A:{i:a|join:,}:A B:{i:b|join: }:B > {o:out}", Outs: []*spec.Out{{Port: "out", Pattern: "joined2.out"}}})
+		s.Conns = append(s.Conns, &spec.Conn{From: "src.out", To: "UA.in"}, &spec.Conn{From: "src.out", To: "UB.in"}, &spec.Conn{From: "UA.out", To: "SSA.in"}, &spec.Conn{From: "UB.out", To: "SSB.in"},
+			&spec.Conn{From: "SSA.substream", To: "JN2.a"}, &spec.Conn{From: "SSB.substream", To: "JN2.b"})
+		out = append(out, s)
+	}
 	return out
 }
 
 func c12(args []string) {
 	c := chk.New("C12", "exploration", args)
 	c.Build(true)
-	c.Rule("the subject built with the Go race detector (-race, GORACE=halt_on_error=0 log_path=...) runs generated graphs biased to shared state (fan-out of one out-port to several consumers, MapToTags beside sibling consumers, multi-output tasks feeding different consumers, fan-in, multi-core tasks, parameter feeders and combinators, Go functions) and directed shapes (tagging + reading siblings + GroupByTag concatenation, simultaneous closing of 6 upstreams, RunTo with literal parameter feeders, components with internal goroutines, a streaming pair, 16 streamed items from a producer with additional regular outputs, one out-port fanned out to Go functions that Read() the same items), each under several yield-point seeds and GOMAXPROCS values, every second run with passive hooks (an active hook takes the monitor mutex, which is a synchronisation the race detector sees and which would order accesses the plain library leaves unordered); oracle: every 'WARNING: DATA RACE' block with a scipipe frame is a violation, de-duplicated by the pair of innermost scipipe frames; blocks without any scipipe frame are harness bugs (check reported as broken). distinct_nontrivial = distinct interleaving signatures observed under the race detector")
+	c.Rule("the subject built with the Go race detector (-race, GORACE=halt_on_error=0 log_path=...) runs generated graphs biased to shared state (fan-out of one out-port to several consumers, MapToTags beside sibling consumers, multi-output tasks feeding different consumers, fan-in, multi-core tasks, parameter feeders and combinators, Go functions) and directed shapes (tagging + reading siblings + GroupByTag concatenation, simultaneous closing of 6 upstreams, RunTo with literal parameter feeders, components with internal goroutines, a streaming pair, 16 streamed items from a producer with additional regular outputs, one out-port fanned out to Go functions that Read() the same items, the sink draining files and parameters at once, two joined in-ports), each under several yield-point seeds and GOMAXPROCS values, every second run with passive hooks (an active hook takes the monitor mutex, which is a synchronisation the race detector sees and which would order accesses the plain library leaves unordered); oracle: every 'WARNING: DATA RACE' block with a scipipe frame is a violation, de-duplicated by the pair of innermost scipipe frames; blocks without any scipipe frame are harness bugs (check reported as broken). distinct_nontrivial = distinct interleaving signatures observed under the race detector")
 	c.Assume("the race detector reports happens-before violations on executed paths only")
 	rng := c.Rand("c12")
 	type job struct {
